@@ -138,7 +138,7 @@ def run_c09(ck, seed, wd):
         judge = ck.bin_path("wv-judge")
         agree = 0
         for spec, f, mlog in logs:
-            slog = mlog.replace("miri", "serial")
+            slog = os.path.join(os.path.dirname(mlog), "serial-" + os.path.basename(mlog))
             if os.path.exists(slog):
                 os.remove(slog)
             subprocess.run([drive, "replay", "--spec", "file:" + f, "--scenario", "par:lite", "--out", slog], env=ck.ENV)
